@@ -52,46 +52,42 @@ Proof.
 Qed.
 
 Lemma closef_facts w w' k : wstep w ECloseF = Some w' ->
-  closed (pl w') = false /\ nF w' k = 0%nat /\ (forall c, look w' k = Some c -> eFin c = true) /\
-  mem k (lost w') = mem k (keys (pendF (pl w))) || mem k (lost w).
+  closed (pl w') = false /\ nF w' k = 0%nat /\ (forall c, look w' k = Some c -> eFin c = true).
 Proof.
   unfold wstep. destruct (closed (pl w)) eqn:C; [discriminate|].
   unfold extAF. unfold closed in C. destruct (reg (pl w)) as [r|] eqn:Hr; [|discriminate].
   intros H. inversion H; subst w'; clear H. cbn [pl lost]. repeat split.
-  - intros c. unfold look. cbn [pl regList reg]. fold finAll. rewrite lookup_map by apply finAll_key.
-    destruct (lookup k r); [|discriminate]. cbn. intros E. inversion E. apply finAll_fin.
-  - apply mem_app.
+  intros c. unfold look. cbn [pl regList reg]. fold finAll. rewrite lookup_map by apply finAll_key.
+  destruct (lookup k r); [|discriminate]. cbn. intros E. inversion E. apply finAll_fin.
 Qed.
 
-(* Close / normal context exit: every value whose last marking asked for
-   finalisation has had its finaliser called exactly once since that marking —
-   unless its pending finaliser call was discarded (ghost [lost]), which
-   happens only to values sitting in pendingFinalize at that moment *)
-Theorem finalize_exactly_once_by_close_partial es w w' k :
+(* Close / normal context exit (repaired code): every value whose last marking asked for
+   finalisation has had its finaliser called exactly once since that marking — whether or not
+   the Go collector had already queued it *)
+Theorem finalize_exactly_once_by_close es w w' k :
   wrun world0 es = Some w -> wstep w ECloseF = Some w' ->
-  wantsF k (tr w') = true ->
-  mem k (keys (pendF (pl w))) = false -> mem k (lost w) = false ->
-  finc k (tr w') = 1%nat.
+  wantsF k (tr w') = true -> finc k (tr w') = 1%nat.
 Proof.
-  intros H S WF NP NL.
+  intros H S WF.
   assert (I : Inv w') by (eapply step_inv; [eapply reachable_inv; exact H|exact S]).
   destruct I as [_ K]. specialize (K k).
-  destruct (closef_facts w w' k S) as (C & N0 & AF & L).
+  destruct (closef_facts w w' k S) as (C & N0 & AF).
+  pose proof (k_lc _ K) as LC. cbn [view vClosed vLost] in LC. specialize (LC C).
   destruct (k_wF _ K WF) as [E|[(_ & [(c & Hc & EF)|E])|E]]; cbn [view vFinc vLook vNF vLost] in *.
   - exact E.
   - rewrite (AF c Hc) in EF. discriminate.
   - rewrite N0 in E. discriminate.
-  - rewrite L, NP, NL in E. discriminate.
+  - congruence.
 Qed.
 
-(* the unrestricted statement is false of the code as it stands *)
-Definition refute_history : list ev := [EMark 1 1; EMark 2 1; EDrop 1; EGoGC 1; ECloseF; EFinReturn; EPop].
-Theorem finalize_exactly_once_by_close_refuted :
-  exists es w k, wrun world0 es = Some w /\ closed (pl w) = true /\
-                 wantsF k (tr w) = true /\ finc k (tr w) = 0%nat.
-Proof. exists refute_history. eexists. exists 1. vm_compute. repeat split; reflexivity. Qed.
+(* the history that refuted the statement before the repair (a pending finaliser at close) *)
+Definition pending_at_close_history : list ev := [EMark 1 1; EMark 2 1; EDrop 1; EGoGC 1; ECloseF; EFinReturn; EPop].
+Example pending_at_close_now_finalised :
+  exists w, wrun world0 pending_at_close_history = Some w /\ closed (pl w) = true /\
+            finc 1 (tr w) = 1%nat /\ finc 2 (tr w) = 1%nat /\
+            tr w = [Fin 1; Fin 2; Marked 2 1; Marked 1 1].
+Proof. eexists. vm_compute. repeat split; reflexivity. Qed.
 
-(* the hypotheses of the partial theorem are satisfiable, and the conclusion is not trivial *)
 Example finalize_exactly_once_example :
   exists w w', wrun world0 [EMark 1 1; EMark 2 3; EDrop 1; EGoGC 1; ERunPF; EFinReturn] = Some w /\
     wstep w ECloseF = Some w' /\ wantsF 2 (tr w') = true /\ finc 2 (tr w') = 1%nat /\ finc 1 (tr w') = 1%nat.
@@ -175,7 +171,7 @@ Proof. induction os as [|o os IH]; simpl; intros p H; [exact H|]. apply IH. appl
      cannot return anything else) *)
 Theorem close_order_reverse_mark os :
   let p := fold_left (fun q o => fst (step q o)) os pool0 in
-  let sel := filter notFin (regList p) in
+  let sel := pendF p ++ filter notFin (regList p) in
   StronglySorted desc (sort_desc sel) /\ Permutation (sort_desc sel) sel /\
   (forall k fl r, reg p = Some r -> fl <> 0 ->
      let p' := fst (mark p k fl) in
